@@ -2,7 +2,10 @@ module verifharness
 
 go 1.13
 
-require github.com/ElrondNetwork/elrond-vm-common v0.0.0
+require (
+	github.com/ElrondNetwork/elrond-vm-common v0.0.0
+	github.com/anishathalye/porcupine v1.3.0
+)
 
 replace github.com/ElrondNetwork/elrond-vm-common => /repo
 
